@@ -51,10 +51,13 @@ var faultableOps = map[string]bool{
 }
 
 func faultKinds(op string) []string {
+	// "returned error" comes in three flavours: a plain error, a timeout-class error that wraps
+	// context.DeadlineExceeded (the storage's own deadline, the request is alive) and an error that wraps
+	// context.Canceled (a closed connection pool)
 	if op == "GetMetadataSigningKey" || op == "GetResponseSigningKey" {
-		return []string{sim.FaultError, sim.FaultNilRecord, sim.FaultKeyNoCert, sim.FaultCertNoKey, sim.FaultEmptyCert}
+		return []string{sim.FaultError, sim.FaultTimeout, sim.FaultPoolClosed, sim.FaultNilRecord, sim.FaultKeyNoCert, sim.FaultCertNoKey, sim.FaultEmptyCert}
 	}
-	return []string{sim.FaultError}
+	return []string{sim.FaultError, sim.FaultTimeout, sim.FaultPoolClosed}
 }
 
 func c10Scenarios() []c10Scenario {
@@ -120,7 +123,31 @@ func c10Scenarios() []c10Scenario {
 			return e, func() *env.Call { return e.Do(env.Req{Path: path}) }
 		}
 	}
+	// the same requests with white space around the Issuer text (pretty-printed documents): whatever a handler does
+	// about that, a storage failure stays a failure
+	padded := func(kind, binding string) func(o env.Opts) (*env.Env, func() *env.Call) {
+		return func(o env.Opts) (*env.Env, func() *env.Call) {
+			e := mk(o)
+			rng := fixedRng()
+			var x string
+			path := env.PathSSO
+			if kind == "sso" {
+				a := validAuthn(rng, stdSP(0))
+				a.Style = spsim.Style{PfxP: "samlp", PfxA: "saml"}
+				a.Issuer = "\n    " + a.Issuer + "\n  "
+				x = a.XML(rng)
+			} else {
+				l := conformantLogout(rng, stdSP(0))
+				l.Issuer = "\n    " + l.Issuer + "\n  "
+				x, path = l.XML(rng), env.PathSLO
+			}
+			s := ssoSend{Path: path, Binding: binding, XML: x, HasRelay: true, Relay: "MKrelay"}
+			return e, func() *env.Call { c, _ := s.do(e); return c }
+		}
+	}
 	return []c10Scenario{
+		{Name: "sso_redirect_padded_issuer", run: padded("sso", "redirect")},
+		{Name: "logout_post_padded_issuer", run: padded("logout", "post")},
 		{Name: "sso_redirect_unsigned", run: sso("redirect", false)},
 		{Name: "sso_redirect_signed", run: sso("redirect", true)},
 		{Name: "sso_post_unsigned", run: sso("post", false)},
@@ -383,7 +410,7 @@ func init() {
 			}
 			sort.Strings(names)
 			r.Extra("scenarios", names)
-			r.Rule = "for each endpoint scenario (SSO redirect/POST signed/unsigned, callback POST/Redirect/body, logout POST/redirect, attribute query, metadata signed/unsigned, certificate, readiness, health) a fault-free recording run yields the sequence of storage calls; then every (operation, occurrence) x fault kind {error; for the two key getters also nil record, key without certificate, certificate without key, empty certificate} is injected singly (quick and thorough; once on a fresh provider and once right after the same request was served fault-free by the same provider; each also with the failing call delayed, with all other calls delayed, and - user lookups - failing after part of the record was delivered) and in pairs (thorough: the second fault at every call that still happens after the first, sequence re-recorded); the signing scenarios are re-run with unusable configured signature algorithms. After the first fault the reply must be HTTP 5xx or a non-Success SAML response: no panic, no Success, no user canary, no signed metadata, no persistence, no login redirect. Distinct = (scenario, fault positions and kinds); all non-trivial."
+			r.Rule = "for each endpoint scenario (SSO redirect/POST signed/unsigned, SSO and logout with white space around the Issuer text, callback POST/Redirect/body, logout POST/redirect, attribute query, metadata signed/unsigned, certificate, readiness, health) a fault-free recording run yields the sequence of storage calls; then every (operation, occurrence) x fault kind {error - plain, timeout-class wrapping context.DeadlineExceeded, wrapping context.Canceled; for the two key getters also nil record, key without certificate, certificate without key, empty certificate} is injected singly (quick and thorough; once on a fresh provider and once right after the same request was served fault-free by the same provider; each also with the failing call delayed, with all other calls delayed, and - user lookups - failing after part of the record was delivered) and in pairs (thorough: the second fault at every call that still happens after the first, sequence re-recorded); the signing scenarios are re-run with unusable configured signature algorithms. After the first fault the reply must be HTTP 5xx or a non-Success SAML response: no panic, no Success, no user canary, no signed metadata, no persistence, no login redirect. Distinct = (scenario, fault positions and kinds); all non-trivial."
 			r.SetExhaustive(true)
 			r.Assume("exhaustive over the listed scenarios, their recorded call sequences and the listed fault kinds; other requests may reach other call sequences")
 			r.Require("single_faults_injected", 120)
